@@ -74,3 +74,52 @@ example : (fitHistory (fun a : Nat => a + 1)
     ([⟨1, 0, false⟩, ⟨0, 0, false⟩], some 8) := by decide
 
 end Skglm.C18
+
+/-! ### which compiled class a request gets -/
+namespace Skglm.C18
+open Skglm
+
+theorem lookupOrCompile_nodup (c : Cache) (k : CacheKey) (h : c.Nodup) :
+    (Cache.lookupOrCompile c k).Nodup := by
+  unfold Cache.lookupOrCompile
+  split
+  · exact h
+  · exact List.nodup_cons.2 ⟨by assumption, h⟩
+
+/-- a compiled class is never replaced: later requests leave the identity of every cached key
+    unchanged -/
+theorem class_identity_stable (c : Cache) (k k' : CacheKey) (h : k' ∈ c) :
+    (Cache.lookupOrCompile c k).idOf k' = c.idOf k' := by
+  unfold Cache.lookupOrCompile
+  split
+  · rfl
+  · rename_i hk
+    have hne : k ≠ k' := fun e => hk (e ▸ h)
+    have hne' : ¬ (k == k') = true := by simpa using hne
+    simp [Cache.idOf, h, List.idxOf_cons, hne']
+    have := List.idxOf_lt_length_of_mem h
+    omega
+
+/-- two keys share a compiled class only if they are the same key: class, spec *and* precision -/
+theorem same_class_same_key (c : Cache) (k k' : CacheKey) (hk : k ∈ c) (hk' : k' ∈ c)
+    (h : c.idOf k = c.idOf k') : k = k' := by
+  simp only [Cache.idOf, hk, hk', if_true, Option.some.injEq] at h
+  have h1 := List.idxOf_lt_length_of_mem hk
+  have h2 := List.idxOf_lt_length_of_mem hk'
+  have : c.idxOf k = c.idxOf k' := by omega
+  have e1 := List.getElem_idxOf h1
+  have e2 := List.getElem_idxOf h2
+  simp only [this] at e1
+  exact e1.symm.trans e2
+
+/-- in particular a float32 request never gets the class compiled for float64 (and conversely) -/
+theorem precision_separates (c : Cache) (cls spec : Nat) (h32 : ⟨cls, spec, true⟩ ∈ c)
+    (h64 : ⟨cls, spec, false⟩ ∈ c) : c.idOf ⟨cls, spec, true⟩ ≠ c.idOf ⟨cls, spec, false⟩ := by
+  intro h
+  have := same_class_same_key c _ _ h32 h64 h
+  simp at this
+
+example : cacheIds [⟨0, 0, false⟩, ⟨0, 0, true⟩, ⟨0, 0, false⟩, ⟨1, 0, false⟩] =
+    [some 0, some 1, some 0, some 2] := by decide
+
+end Skglm.C18
